@@ -1173,5 +1173,28 @@ theorem resultIsSaneNan_map_some (rtol : α) (comps : List (Comp α)) (init x : 
     simp only [bind, Except.bind, List.length_map, tooMuchNan_map_some, List.any_map]
     rfl
 
-end ChemModel.EqSolve
+/-! ### round 11: internal starting point of the linear formulation -/
 
+theorem dot_convex (w1 w2 : α) : ∀ (b c d : List α), c.length = d.length →
+    dot b (List.zipWith (fun x y => (w1 * x + y) / w2) c d) = (w1 * dot b c + dot b d) / w2
+  | [], _, _, _ => by simp [dot]
+  | _ :: _, [], [], _ => by simp [dot]
+  | _ :: _, [], _ :: _, h => by simp at h
+  | _ :: _, _ :: _, [], h => by simp at h
+  | b :: bs, c :: cs, d :: ds, h => by
+    have ih := dot_convex w1 w2 bs cs ds (by simpa using h)
+    simp only [dot, List.zipWith_cons_cons, List.sum_cons] at ih ⊢
+    rw [ih]; ring
+
+theorem linInternalX0_ok (phases : List Nat) (rxns : List Rxn) (c0 x0 : List α) (h : linInternalX0 phases rxns c0 = .ok x0) :
+    ∃ d, dissolved phases rxns c0 = .ok d ∧ d.length = c0.length ∧
+      x0 = List.zipWith (fun c dv => (99 * c + dv) / 100) c0 d := by
+  unfold linInternalX0 at h
+  simp only [bind, Except.bind] at h
+  split at h
+  · cases h
+  · rename_i d hd
+    simp only [pure, Except.pure, Except.ok.injEq] at h
+    exact ⟨d, hd, dissolved_length phases rxns c0 d hd, by rw [← h]; simp⟩
+
+end ChemModel.EqSolve
